@@ -235,7 +235,8 @@ def run(ctx):
               ("control", ctl, "group", "group"), ("control", ctl, "repeat", "repeat"), ("control", ctl, "loop", "loop"),
               ("select", sel, "select_one", "select one"), ("select", sel, "select_multiple", "select all that apply"), ("select", sel, "rank", "rank"),
               ("select", sel, "select_one_external", "select one external"), ("select", sel, "select_one_from_file", "select one"), ("select", sel, "select_multiple_from_file", "select all that apply"),
-              ("types", tam, "image", "photo")]
+              ("types", tam, "image", "photo"), ("types", tam, "add image prompt", "photo"), ("types", tam, "add photo prompt", "photo"), ("types", tam, "add audio prompt", "audio"),
+              ("types", tam, "add video prompt", "video"), ("types", tam, "add file prompt", "file"), ("types", tam, "imei", "deviceid")]
     for tname, table, k, v in single:
         r1.check(table.get(k) == v, f"{tname}[{k!r}]", f"-> {v!r}", "pyxform/aliases.py", why_fail=f"got {table.get(k)!r}")
     for s in spec.TRUE_SPELLINGS + ["true()"]:
